@@ -7,6 +7,8 @@ STATIC_THEOREMS = [
     'SnapraidVerif.Props.C06.inv_step',
     'SnapraidVerif.Props.C06.inv_reachable',
     'SnapraidVerif.Props.C06.extent_wf_alloc',
+    'SnapraidVerif.Alloc.allocFile_spec',
+    'SnapraidVerif.Alloc.alloc_two_disjoint',
 ]
 
 def commands(rng, s):
@@ -124,7 +126,7 @@ def main(tier, seed):
     chk.oblig('lake build', ok, log[-300:])
     hits = vlib.forbidden_tokens()
     chk.oblig('no sorry/admit/axiom/native_decide in library', not hits, '; '.join(hits))
-    okA, ax, out = vlib.axioms_audit(STATIC_THEOREMS, ['SnapraidVerif.Props.C06'])
+    okA, ax, out = vlib.axioms_audit(STATIC_THEOREMS, ['SnapraidVerif.Props.C06', 'SnapraidVerif.Array.Alloc'])
     chk.axioms.update(ax)
     for t in STATIC_THEOREMS:
         chk.oblig('axiom audit: ' + t, ax.get(t) is not None and all(x in vlib.STD_AXIOMS for x in ax[t]), str(ax.get(t)))
